@@ -261,7 +261,8 @@ UNDECIDED_SEEDS = {'C01_d': 'wrong multiplication count in a while loop: E2 does
                    'C07_j': 'misplaced parenthesis in the Pade-13 numerator of expm: coefficient/formula content',
                    'C13_b': 'UTPM.tile as one numpy.tile call with reps padded by (1,1): same as C10_g - not decided (exit 2)',
                    'C13_i': 'UTPM.trace as a strided view of a reshape: neither the slice-wise loop nor a whole-array call with evaluable axes - reported as not decided (exit 2)',
-                   'C10_g': 'UTPM.tile as one numpy.tile call on the coefficient array: the alignment of reps with the axes is not evaluated - reported as not decided (exit 2)',
+                   'C10_g': 'UTPM.tile as one numpy.tile call on the coefficient array: the alignment of reps with the axes is not evaluated - reported as not decided (exit 2); '
+                            'since round 7 R-param-used also reports that the rewrite ignores `out`, which is true but not the defect the seed is about',
                    'C12_h': 'UTPM.shift rewritten with an index array whose mask admits negative (wrapping) indices: value-level index arithmetic on an array, '
                             'outside the affine index domain; shift(s<0) reads higher orders by design and is not a graded kernel'}
 # neutral patches written against an older commit that fire there for a true reason
